@@ -100,6 +100,24 @@ def read_back(path: str, rp: str, qp: str):
     with open(qp) as f:
         qrys = [q.trim() for q in CmapReader().readQueries(f)]
     reader = XmapReader(XmapAlignmentPairWithDistanceParser(refs, qrys))
+    # the reader is a long-lived object (Program keeps one; the sv and diagnostic tools read several files with one
+    # reader): before it reads the file, the SAME reader reads the same path while it holds an earlier content (the
+    # header and the first record only, as after a shorter earlier run with the same -o); the file is then put back
+    # by plain file I/O and read again - what counts is the second answer, which has to describe what is on disk now
+    with open(path) as f:
+        text = f.read()
+    head = [ln for ln in text.splitlines(True) if ln.startswith("#")]
+    body = [ln for ln in text.splitlines(True) if not ln.startswith("#")]
+    with open(path, "w") as f:
+        f.write("".join(head + body[:1]))
+    try:
+        with open(path) as f:
+            reader.readAlignments(f)
+    except Exception:       # noqa: BLE001   (the earlier content is not what is judged)
+        pass
+    finally:
+        with open(path, "w") as f:
+            f.write(text)
     with open(path) as f:
         als = reader.readAlignments(f)
     # reading with a selection (used by the plotting / benchmark tools; not part of C18's statement: reported as drift)
